@@ -92,7 +92,7 @@ def run(ctx, family=FAMILY, detail=False, decorate_docs=False, space=False):
     index = catalogue()[1]
   for _ in range(nrand):
     rid += 1
-    ad = random_doc(ctx.rng, space=space)
+    ad = random_doc(ctx.rng, space=space, ruby_forms=(family == "c13"), max_nodes=60 if family == "c13" else 40)
     if decorate_docs:
       decorate(ad, ctx.rng, index)
     if family in ("c01", "c02") and ctx.rng.random() < 0.25:
